@@ -46,17 +46,9 @@ fn vx_extend_hash_len(v: &mut Vec<(MerkleHash, usize)>, chunks: &[Chunk])
 #[verifier::external_body] fn hash_is_global_dedup_eligible(h: &MerkleHash) -> bool { unimplemented!() }
 
 
-// ---- file record types and the callees of finalize ---------------------------------------------------------------------------------
-//@ extract mdb_shard/src/file_structs.rs struct FileDataSequenceHeader
-//@ end
-//@ extract mdb_shard/src/file_structs.rs struct FileVerificationEntry
-//@ end
-//@ extract mdb_shard/src/file_structs.rs struct FileMetadataExt
-//@ end
-//@ extract mdb_shard/src/file_structs.rs struct MDBFileInfo
-//@ end
-//@ extract deduplication/src/data_aggregator.rs struct DataAggregator
-//@ end
+// ---- file record types, the aggregator model (shared with U-AGG / U-SESSCUT) and the callees of finalize ------------------------------
+//@ include prelude/agg_lemmas.rs
+//@ include prelude/agg_model.rs
 impl FileDataSequenceHeader {
     // R11/R12 stub of FileDataSequenceHeader::new at the usize instantiation (its flag arithmetic is verified in U-SETOPS);
     // the `num_entries.try_into().unwrap()` panic is the precondition
@@ -72,12 +64,10 @@ impl FileVerificationEntry {
     fn new(range_hash: MerkleHash) -> (r: Self) ensures r.range_hash == range_hash { unimplemented!() }
 }
 impl DataAggregator {
-    // callee contract; proved for the real `DataAggregator::new` in U-AGG
+    // callee contract: the SAME text that U-AGG proves for the extracted body of `DataAggregator::new`
     #[verifier::external_body]
     fn new(chunks: Vec<Chunk>, pending_file_info: MDBFileInfo, internally_referencing_entries: Vec<usize>) -> (r: Self)
-        requires chunks_ok(chunks@), sum_len(hashes(chunks@)) <= usize::MAX,
-        ensures r.chunks == chunks, r.num_bytes == sum_len(hashes(chunks@)),
-            r.pending_file_info@ == seq![(pending_file_info, internally_referencing_entries)],
+//@ include prelude/c_agg_new.rs
     { unimplemented!() }
 }
 #[derive(Debug)]
@@ -545,6 +535,8 @@ impl<DataInterfaceType: DeduplicationDataInterface> FileDeduper<DataInterfaceTyp
         ensures
             /*@C03,C02*/ r.0 == file_hash_spec(self.chunk_hashes@, file_hash_salt),
             /*@C01,C15*/ r.1.chunks == self.new_data && r.1.num_bytes == self.new_data_size && r.1.pending_file_info@.len() == 1,
+            // what the session layer (U-SESSCUT) requires of a finished file's left-over data, and C01 at the hand-over
+            /*@C01,C02,C15*/ r.1.agg_wf() && r.1.within_limits() && r.1.den(0) == ch_hashes(self.chunk_hashes@),
             /*@C01,C02*/ r.1.pending_file_info@[0].0.segments == self.file_info && r.1.pending_file_info@[0].1 == self.internally_referencing_entries,
             /*@C02*/ r.1.pending_file_info@[0].0.metadata.file_hash == r.0 && r.1.pending_file_info@[0].0.metadata.num_entries == self.file_info@.len(),
             /*@C02*/ r.1.pending_file_info@[0].0.metadata_ext == metadata_ext,
